@@ -467,13 +467,15 @@ where
     const LINE_FEED: u8 = b'\n';
     const CARRIAGE_RETURN: u8 = b'\r';
 
+    let start = buf.len();
+
     match reader.read_until(LINE_FEED, buf)? {
         0 => Ok(0),
         n => {
             if buf.ends_with(&[LINE_FEED]) {
                 buf.pop();
 
-                if buf.ends_with(&[CARRIAGE_RETURN]) {
+                if buf[start..].ends_with(&[CARRIAGE_RETURN]) {
                     buf.pop();
                 }
             }
